@@ -398,6 +398,26 @@ type Step struct {
 	Signer    []byte
 	Sk        Skolems
 	Err       error
+	Panicked  bool
+	// SkipC03: the handler-specific hook asserts its own version of C03 (BuyDirect)
+	SkipC03 bool
+}
+
+var errPanicked = errorString("handler panicked (baseapp recovers the panic and discards the message's writes)")
+
+type errorString string
+
+func (e errorString) Error() string { return string(e) }
+
+// callRecovering runs the handler the way baseapp does: a panic fails the message.
+func callRecovering(call func(ctx context.Context) error) (err error, panicked bool) {
+	defer func() {
+		if r := recover(); r != nil {
+			err = errPanicked
+			panicked = true
+		}
+	}()
+	return call(zz.Context()), false
 }
 
 // RunStep: arbitrary pre-state satisfying R, arbitrary request accepted by ValidateBasic,
@@ -409,7 +429,7 @@ func RunStep(authority []byte, req sdk.Msg, call func(ctx context.Context) error
 	s := &Step{Authority: authority, Sk: PickSkolems()}
 	s.Signer = req.GetSigners()[0]
 	zz.OrmBegin()
-	s.Err = call(zz.Context())
+	s.Err, s.Panicked = callRecovering(call)
 	zz.OrmRollbackIf(s.Err != nil)
 	CheckC01(s.Sk.Batch)
 	iss := zz.QInt(0)
@@ -423,13 +443,15 @@ func RunStep(authority []byte, req sdk.Msg, call func(ctx context.Context) error
 	}
 	if s.Err == nil {
 		zz.Reach("handler succeeds")
+	} else if s.Panicked {
+		zz.Reach("handler panics")
 	} else {
 		zz.Reach("handler fails")
 	}
 	// C03 last: it restricts the skolem account to accounts that did not sign
 	zz.Assume(zz.Not(zz.BytesEq(s.Sk.Acct, s.Signer)))
 	zz.Assume(zz.Not(zz.IsModuleAccount(s.Sk.Acct)))
-	if s.Err != nil || !zz.Symbolic() || true {
+	if !s.SkipC03 {
 		CheckC03(s.Sk.Acct, s.Sk.Batch, s.Sk.Denom)
 	}
 }
